@@ -882,7 +882,7 @@ func applyFault(data []byte, fault string, lenOffs []int) ([]byte, bool) {
 		if pos+4 > len(out) {
 			return nil, false
 		}
-		nv := map[string]uint32{"65536": 65536, "2^31": 1 << 31, "2^32-1": math.MaxUint32}[parts[2]]
+		nv := map[string]uint32{"65536": 65536, "2^31": 1 << 31, "2^32-1": math.MaxUint32, "2^32-4": math.MaxUint32 - 3}[parts[2]]
 		if binary.BigEndian.Uint32(out[pos:]) == nv {
 			return nil, false
 		}
@@ -1300,7 +1300,12 @@ func checkC13(c *core.Ctx) {
 		for _, f := range wc.Faults {
 			switch f.Kind {
 			case "truncate-every", "xor-every", "u32-every":
-				for i := shift; i < n; i += stride {
+				st, sh := stride, shift
+				if f.Kind == "u32-every" && (f.A == "2^32-1" || f.A == "2^32-4") {
+					// a length just below 2^32 is where "length + header" wraps around: every offset in every tier
+					st, sh = 1, 0
+				}
+				for i := sh; i < n; i += st {
 					pos := offset(i)
 					fs := map[string]string{"truncate-every": fmt.Sprintf("truncate:%d", pos), "xor-every": fmt.Sprintf("xorat:%d:%s", pos, f.A), "u32-every": fmt.Sprintf("u32at:%d:%s", pos, f.A)}[f.Kind]
 					cases = append(cases, totCase{ID: base + "|" + fs, Group: "fault", Base: base, Fault: fs})
